@@ -212,7 +212,7 @@ PROPS['C10'] = dict(
 )
 PROPS['C14'] = dict(
     units=[dict(target=HIST_T, quick=dict(args=['--focus', 'C14'], scale=0.6, shards=4), thorough=dict(args=['--focus', 'C14', '--max-size', '200'], scale=4.0, shards=16)),
-           fuzz_unit(4, 12000, 600000)],
+           fuzz_unit(4, 12000, 80000)],
     rule=HIST_RULE + 'Oracle (C14): before/after snapshots (grid points incl. getData(), window, coefficient arrays, three evaluations) of EVERY object that is not the declared target of the step are identical; a copy / assigned object equals its source; '
          'moved-to equals the source\'s former state; a op= b equals a op b; an in-place call that throws leaves its target unchanged. Non-trivial: an object with a live copy/derivative is mutated in place, or an in-place call throws. Distinct = distinct history text.',
     technique='model-based stateful testing: generated API call histories with before/after snapshots of every non-target object',
@@ -466,9 +466,9 @@ PROPS['C19'] = dict(
 
 PROPS['C18'] = dict(
     confirm_any=True,  # schedules are not reproducible: a replay runs the workload 20 times, one failing replay confirms
-    units=[dict(target=T('h_threads', kind='tsan'), quick=dict(args=['--repeats', '3'], scale=4.0), thorough=dict(args=['--repeats', '5'], scale=10.0, shards=4))],
+    units=[dict(target=T('h_threads', kind='tsan'), quick=dict(args=['--repeats', '3'], scale=0.6, shards=6), thorough=dict(args=['--repeats', '5'], scale=3.0, shards=16))],
     rule=('generated multi-thread workloads: a shared CONST pool (one grid, 3..6 windows each materialised as splines of orders 0..3, their supports, a BSplineGenerator, two compound operator expressions, a SplineOperator, LinearForm, BilinearForm, ScalarProduct objects) + per-thread op lists (4..24 ops from 16 kinds: evaluate, copy+destroy, copy-assign, a+b, a-b, a*b, '
-          'apply shared operator, apply shared spline operator, linear form, bilinear form (incl. copying a shared SplineOperator), generateBSplines on the shared generator, predicates, linearCombination over the shared vector, support union/intersection/copy, numerical integration, grid copy) for 2/3/4/8/16 threads with generated yield/spin patterns; all threads start behind one barrier; every workload is executed 3 (quick) or 5 (thorough) times. '
+          'apply shared operator, apply shared spline operator, linear form, bilinear form (incl. copying a shared SplineOperator), generateBSplines on the shared generator, predicates, linearCombination over the shared vector, support union/intersection/copy, numerical integration, grid copy, mixing shared splines (as LEFT operand) with splines on a logically equal grid held in a distinct object, mixing them with splines of a generator each thread builds itself from the same points, operator / quadrature template instances the tests never use: X<4..6>, Dx<3>, Dx<5>, integrate<2>, integrate<5>) for 2/3/4/8/16 threads with generated yield/spin patterns; all threads start behind one barrier; every workload is executed 3 (quick) or 5 (thorough) times, threads FIRST and the sequential reference afterwards (a sequential warm-up would hide lazily initialised state); every process (6 in quick, 16 in thorough) begins with a cold-start workload in which four threads run every op kind at once. '
           'Oracle: ThreadSanitizer with halt_on_error (any report is a violation) and bitwise equality of every thread\'s result vector with a sequential run of the same op list. Non-trivial: >= 2 threads and >= 4 ops. Distinct = distinct workload text.'),
     technique='rapidcheck-generated multi-thread workloads executed under ThreadSanitizer (happens-before race detection) with a sequential-run differential',
     engine='rapidcheck + ThreadSanitizer',
@@ -489,7 +489,7 @@ def _examples_target():
 PROPS['C20'] = dict(
     units=[dict(target=_examples_target(), quick=dict(scale=1.0, timeout=3000), thorough=dict(scale=6.0, shards=8, timeout=14000))],
     rule=('the example sources are compiled FROM /repo/examples with -D_GLIBCXX_DEBUG + ASan + UBSan + BSPLINE_ADD_TEST_CHECKS behind a C-ABI shim. Diffusion: grids of 2..12 points (uniform, random, strongly non-uniform), whole-grid coefficient splines with positive piecewise-constant values in [1/8, 8] '
-          '(15% constant), boundary values in [-10,10], scale factors 2^k and arbitrary positive rationals; strict sub-window coefficient splines are generated too and must be rejected cleanly with the library exception. Oracle: no sanitizer / checked-STL report; u(front)=start, u(back)=end within 1e-9*max(1,|start|,|end|); '
+          '(15% constant), boundary values in [-10,10], scale factors 2^k, arbitrary positive rationals and (25%) extreme factors 2^-160..2^160; strict sub-window coefficient splines are generated too and must be rejected cleanly with the library exception. Oracle: no sanitizer / checked-STL report; u(front)=start, u(back)=end within 1e-9*max(1,|start|,|end|); '
           'u unchanged (1e-7 relative) when D is scaled; straight line for constant D (1e-7). Spline potential: grids of 21..41 jittered points (the entry point returns ten states), potentials a x^2 + b sin(w x) + d, constants c in [-1000,1000] added before interpolation or as a constant spline; '
           'all ten eigenvalues shift by c within 1e-7*(1+|c|+|lambda|). Harmonic oscillator and hydrogen: once per run, n+1/2 (1e-12) and -1/n^2 (5e-12), the suite\'s own tolerances. Observed maxima in metrics_max. Non-trivial: >= 3 nodes or start != end (diffusion, and every clean rejection); c != 0 (potential).'),
     technique='rapidcheck generation of example inputs; oracle = metamorphic relations of the solvers + sanitizer / checked-STL reports on the example sources themselves',
